@@ -30,7 +30,6 @@ vars == <<regs, nsets, job, done>>
 view == <<regs, nsets, job>>
 
 Idle == [stage |-> "idle"]
-NewRegs(x) == [input |-> x, ecl |-> "none", mode |-> -1, version |-> -1, mask |-> -1]
 RegSpace == [input : Inputs, ecl : LevelOpts, mode : ModeOpts, version : VersionOpts, mask : MaskOpts]
 
 Init == /\ regs \in [Builders -> RegSpace]
